@@ -718,6 +718,13 @@ impl<'p> Interp<'p> {
 							_ => f64::NAN,
 						})));
 					}
+					if item == "NAN" {
+						// used by the crate only to fill fields that are never read (empty RenkoOutput): an
+						// unconstrained value; is_nan() on it is not modelled
+						let r = self.tm.var("__nan_placeholder", crate::term::Sort::Real);
+						let z = self.tm.bool_(false);
+						return Ok(V::F(Fl::S { r, z }));
+					}
 					return unsup(format!("f64::{} in symbolic mode", item));
 				}
 				_ => {}
